@@ -201,6 +201,7 @@ class World:
     def call(self, session, fn, *args, faults=(), npseed=0, **kw):
         out = Outcome()
         fs = self.fs
+        scratch = _scratch_cwd()
         clock.advance()
         np.random.seed(npseed & 0xFFFFFFFF)
         old_stdout = sys.stdout
@@ -215,6 +216,7 @@ class World:
                 except SimCrash:
                     out.crashed = True
                 except Exception as e:  # library code failing is an observation, not a harness error
+                    _unseen_io_guard(e)
                     # formatting a traceback makes linecache stat() source files, some under relative names
                     # ("pandas/_libs/parsers.pyx") that resolve into the virtual cwd: that is the harness, not the
                     # code under test, so it must neither count as I/O primitives nor trip an armed fault
@@ -233,6 +235,16 @@ class World:
         finally:
             out.io, out.fired, out.nprims = fs.end_call()
             sys.stdout = old_stdout
+        left = simfs._real["listdir"](scratch)
+        if left:
+            for name in left:
+                try:
+                    simfs._real["remove"](os.path.join(scratch, name))
+                except OSError:
+                    pass
+            raise HarnessError("the code under test created %r in the real working directory: file I/O by relative path that "
+                               "bypasses Python's open()/os.open() (C-level, e.g. ndarray.tofile(name)) is invisible to the "
+                               "simulated disk - no verdict is possible for this tree" % sorted(left))
         if "crash" in out.fired and not out.crashed:
             # the crash fired inside a finaliser (close() from __del__), where Python swallows even
             # BaseException: the process is dead all the same
@@ -375,6 +387,76 @@ class World:
 # faults that a correct stack must hide completely: a call that returns normally although one of
 # these fired is still an acknowledged call.
 BENIGN_FAULTS = ("eintr", "short_write", "short_read", "listdir_order")
+
+
+_SCRATCH = {}
+
+
+def _scratch_cwd():
+    """the *real* working directory while cryoCAT code runs: a private empty scratch directory per process, so that
+    I/O the seam cannot see (C code opening a relative name) neither lands in /verif nor goes unnoticed.  All of them
+    live under one base directory that the top-level process removes when it exits."""
+    pid = os.getpid()
+    d = _SCRATCH.get(pid)
+    if d is None:
+        base = os.environ.get("CRYOSIM_SCRATCH_BASE")
+        if not base or not os.path.isdir(base):
+            import atexit
+            import shutil
+            import tempfile
+            base = tempfile.mkdtemp(prefix="cryosim-cwd-")
+            os.environ["CRYOSIM_SCRATCH_BASE"] = base
+            atexit.register(lambda base=base, owner=pid: os.getpid() == owner and shutil.rmtree(base, ignore_errors=True))
+        d = os.path.join(base, str(pid))
+        try:
+            simfs._real["mkdir"](d)
+        except FileExistsError:
+            pass
+        _SCRATCH.clear()
+        _SCRATCH[pid] = d
+    try:
+        if simfs._real["getcwd"]() != d:
+            simfs._real["chdir"](d)
+    except OSError:
+        simfs._real["chdir"](d)
+    return d
+
+
+def _unseen_io_guard(e):
+    """An OSError about a path *inside* the simulated disk that was not raised by the simulated disk itself comes
+    from C code that went to the real OS (where /simfs does not exist): the seam cannot serve it, so nothing the
+    call did can be judged.  Reported as a harness limit (exit 2), never as a violation."""
+    if not isinstance(e, OSError):
+        return
+    names = [n for n in (getattr(e, "filename", None), getattr(e, "filename2", None)) if isinstance(n, (str, bytes))]
+    names = [n.decode("utf-8", "replace") if isinstance(n, bytes) else n for n in names]
+    if not any(n == ROOT or n.startswith(ROOT + "/") for n in names):
+        return
+    tb = e.__traceback__
+    inner, last = None, None
+    while tb is not None:
+        inner, last = tb.tb_frame.f_code.co_filename, tb
+        tb = tb.tb_next
+    if inner is not None and os.path.basename(inner) == "simfs.py":
+        return
+    if last is not None:
+        # raised by a Python `raise` statement (library code refusing on its own) or by C code called from that frame?
+        import dis
+        try:
+            op = next((i.opname for i in dis.get_instructions(last.tb_frame.f_code) if i.offset == last.tb_lasti), "")
+        except Exception:  # noqa: BLE001
+            op = ""
+        if op.startswith("RAISE") or op == "RERAISE":
+            return
+    if isinstance(e, SimOSErrorMarker):
+        return
+    raise HarnessError("the code under test asked the *real* OS for %r (%s, innermost frame %s): file I/O by path that "
+                       "bypasses Python's open()/os.* (C-level, e.g. ndarray.tofile(path), h5py) cannot be served by the "
+                       "simulated disk - no verdict is possible for this tree" % (names, e, inner))
+
+
+class SimOSErrorMarker:
+    """mixin reserved for simulated-disk errors raised outside simfs.py (none today)"""
 
 
 def outcome_ack(out):
